@@ -84,6 +84,7 @@ var builtinFunctions = map[XmlName]Function{
 	{"", "string-length"}:    stringLengthDispatch.build(),
 	{"", "normalize-space"}:  normalizeSpaceDispatch.build(),
 	{"", "translate"}:        translate,
+	{"", "boolean"}:          boolean,
 	{"", "not"}:              not,
 	{"", "true"}:             true0,
 	{"", "false"}:            false0,
@@ -347,6 +348,14 @@ func translate(context Context, args ...Result) (Result, error) {
 	return String(src), nil
 }
 
+func boolean(context Context, args ...Result) (Result, error) {
+	if len(args) != 1 {
+		return nil, errBadArgs
+	}
+
+	return Bool(args[0].Bool()), nil
+}
+
 func not(context Context, args ...Result) (Result, error) {
 	if len(args) != 1 {
 		return nil, errBadArgs
@@ -443,10 +452,10 @@ func sum(context Context, args ...Result) (Result, error) {
 		return nil, errQueryNonNodeset
 	}
 
-	sum := 0
+	sum := 0.0
 
 	for _, i := range nodeSet {
-		sum += int(NodeSet{i}.Number())
+		sum += NodeSet{i}.Number()
 	}
 
 	return Number(sum), nil
@@ -462,7 +471,7 @@ func floor(context Context, args ...Result) (Result, error) {
 
 func ceiling(context Context, args ...Result) (Result, error) {
 	if len(args) != 1 {
-		return nil, errQueryNonNodeset
+		return nil, errBadArgs
 	}
 
 	return Number(math.Ceil(float64(args[0].Number()))), nil
@@ -481,13 +490,16 @@ func getRound(n float64) float64 {
 		return n
 	}
 
-	if n < -0.5 {
-		n = float64(int(n - 0.5))
-	} else if n > 0.5 {
-		n = float64(int(n + 0.5))
-	} else {
-		n = 0
+	// The closest integer.  Arguments in [-0.5, -0] round to negative zero.
+	r := math.Floor(n)
+
+	if d := n - r; d > 0.5 || (d == 0.5 && n >= -0.5) {
+		r++
 	}
 
-	return n
+	if r == 0 && (n < 0 || math.Signbit(n)) {
+		return math.Copysign(0, -1)
+	}
+
+	return r
 }
